@@ -26,6 +26,12 @@ ELEMENTS = ['C', 'N', 'O', 'S', 'P', 'B', 'Cl', 'Br', 'F', 'H', 'Si', 'Fe', 'Cu'
 ELEMENT_W = [30, 10, 10, 4, 3, 2, 3, 2, 3, 6, 2, 2, 1]
 CHY_PREFIX = os.path.join(env.REPO, 'chython') + os.sep
 
+# Thiele (aromatic-bond) forms: editing them is documented as unsupported, but copy / split / union / remap are not edits
+AROMATIC_SEEDS = ['c1cc[nH]c1.Cl', 'c1ccccc1', 'Cc1ccccc1O', 'c1ccncc1', '[nH+]1ccccc1.[Cl-]', 'c1cnc[nH]1.OC(=O)C', 'c1ccc2ccccc2c1',
+                  'Cc1cc[nH]n1', 'O=c1cccc[nH]1', 'c1ccoc1.CCO', 'c1ccsc1', 'Cn1ccnc1.[Na+].[Cl-]', 'c1ccc2[nH]ccc2c1', '[nH]1cccc1.[nH]1cccc1',
+                  'C[n+]1ccccc1.[I-]', 'c1ccc(cc1)-c1ccccc1', 'OC(=O)c1ccccc1.N', 'c1cc[nH+]cc1.[O-]C(C)=O']
+AROMATIC_KINDS = ['obs', 'obs', 'copy', 'sub', 'sub', 'union', 'union', 'remap', 'flush', 'drop', 'clean_stereo', 'set_meta', 'set_xy']
+
 SEEDS = [
     '',  # empty molecule, built up by add_atom / add_bond only
     'C', 'CC', 'CCO', 'CC(C)C', 'C=C', 'C#N', 'C=C=C', 'CC=C=CC', 'C=C=C=C',
@@ -40,16 +46,17 @@ SEEDS = [
     'C(=O)=O', 'N#N', 'S=C=S', 'C1CCC2(CC1)CC2', 'C1CC12CC2', 'CC(C)(C)C(C)(C)C', 'NC(N)=O', 'C[P+](C)(C)C',
     'C[C@H](O)[C@H](O)[C@@H](C)O', 'C/C=C/[C@H](O)/C=C\\C', 'C[C@H](O)[C@@H](O)[C@H](C)O', 'O[C@H]1C[C@@H](O)C1',
     'C[C@H]1C[C@H](C)C[C@H](C)C1', 'C/C=C/C(/C=C/C)=C/C', 'F[C@H](Cl)[C@@H](Br)[C@H](F)Cl', 'C[C@@H](F)C(Cl)[C@@H](F)C',
+    'C[C@H]([13CH3])O', '[13CH3]/C(C)=C/C', '[2H][C@H](C)O', 'C[C@H]([13CH3])[C@H](C)O', 'CC(CC)=[C@]=CC', 'C[C@H](O)[C@H](CCN)[C@H](O)C',
     'ClC(Cl)Cl', 'BrCCBr', 'FC(F)(F)F', 'CSSC', 'C[S-]', 'C[NH-]', '[NH3+]CC([O-])=O',
 ]
 
 # fixed alphabet of op kinds (weights are drawn per run = swarm testing)
-KINDS = ['set_xy', 'obs', 'add_atom', 'add_bond', 'del_atom', 'del_bond', 'remap', 'union', 'copy', 'sub', 'drop', 'flush',
+KINDS = ['set_meta', 'set_xy', 'obs', 'add_atom', 'add_bond', 'del_atom', 'del_bond', 'remap', 'union', 'copy', 'sub', 'drop', 'flush',
          'tx', 'clean_stereo', 'add_atom_stereo', 'add_ct_stereo', 'invalid', 'new', 'opaque']
-BASE_W = {'set_xy': 3, 'obs': 10, 'add_atom': 9, 'add_bond': 12, 'del_atom': 8, 'del_bond': 9, 'remap': 5, 'union': 4, 'copy': 5,
+BASE_W = {'set_meta': 2, 'set_xy': 3, 'obs': 10, 'add_atom': 9, 'add_bond': 12, 'del_atom': 8, 'del_bond': 9, 'remap': 5, 'union': 4, 'copy': 5,
           'sub': 5, 'drop': 1, 'flush': 1, 'tx': 12, 'clean_stereo': 1, 'add_atom_stereo': 3, 'add_ct_stereo': 3,
           'invalid': 3, 'new': 2, 'opaque': 5}
-MUTATORS = {'set_xy', 'add_atom', 'add_bond', 'del_atom', 'del_bond', 'remap', 'union', 'tx', 'clean_stereo',
+MUTATORS = {'set_meta', 'set_xy', 'add_atom', 'add_bond', 'del_atom', 'del_bond', 'remap', 'union', 'tx', 'clean_stereo',
             'add_atom_stereo', 'add_ct_stereo', 'invalid', 'opaque'}
 OPAQUE = ['explicify_hydrogens', 'implicify_hydrogens', 'clean_isotopes', 'remove_coordinate_bonds', 'neutralize',
           'standardize', 'fix_resonance', 'kekule', 'standardize_charges', 'canonicalize']
@@ -277,7 +284,11 @@ class Sim:
         from chython import smiles
         from chython.containers import MoleculeContainer
         limit = MAX_ATOMS
-        if 'corpus' in op:
+        aromatic = bool(self.cfg.get('aromatic'))
+        if aromatic:
+            s = AROMATIC_SEEDS[op['seed'] % len(AROMATIC_SEEDS)]
+            limit = 24
+        elif 'corpus' in op:
             # drug-like molecules of the shipped corpus in Kekule form (bigger: up to 40 atoms)
             cs = corpus_smiles()
             s = cs[op['corpus'] % len(cs)]
@@ -292,10 +303,13 @@ class Sim:
         except Exception as e:
             self.probes['seed_parse_failed'] += 1
             return None
-        if len(mol) > limit or any(b.order == 4 for *_, b in mol.bonds()):
+        if len(mol) > limit or (not aromatic and any(b.order == 4 for *_, b in mol.bonds())):
             self.probes['seed_out_of_domain'] += 1
             return None
         model = Model()
+        model.aromatic = aromatic
+        if aromatic:
+            self.probes['aromatic_seed'] += 1
         resync(model, mol)
         self.handles.append(Handle(mol, model, 'seed'))
         try:
@@ -436,6 +450,20 @@ class Sim:
         if order == 8:
             self.probes['order8_added'] += 1
         return hi, {n, m}
+
+    def op_set_meta(self, op):
+        hi = self._h(op)
+        if hi is None:
+            return None
+        h = self.handles[hi]
+        if op.get('name') is not None:
+            h.mol.name = op['name']
+            h.model.name = op['name']
+        else:
+            h.mol.meta[op.get('k', 'k')] = op.get('v', 'v')
+            h.model.meta[op.get('k', 'k')] = op.get('v', 'v')
+        self.probes['set_meta'] += 1
+        return hi, set()
 
     @staticmethod
     def _set_xy(mol, n, op):
@@ -629,6 +657,8 @@ class Sim:
         if not model.atoms:
             return None
         mode = op.get('mode', 'substructure')
+        if model.aromatic:
+            mode = 'split'      # substructure() recalculates hydrogens, which aromatic forms do not support; split() carries them
         atoms_sorted = sorted(model.atoms)
         pick = sorted({atoms_sorted[r % len(atoms_sorted)] for r in op.get('atoms', [0])})
         box = []
@@ -991,6 +1021,9 @@ def draw_config(rng, tier):
         'opaque': False,
         'corpus_start': rng.random() < (0.2 if tier == 'thorough' else 0.06),
     }
+    cfg['aromatic'] = (not cfg['corpus_start']) and rng.random() < 0.07
+    if cfg['aromatic']:
+        cfg['max_handles'] = max(2, cfg['max_handles'])
     if cfg['corpus_start']:
         cfg['obs_limit'] = 12          # bigger molecules: sample the observers
         cfg['max_atoms'] = 44
@@ -1064,11 +1097,13 @@ def gen_op(sim, rng, frng, cfg):
         return {'op': 'new', 'seed': rng.randrange(len(SEEDS))}
     w = cfg['weights']
     kind = rng.choices(KINDS, [w[k] for k in KINDS])[0]
+    if cfg.get('aromatic'):
+        kind = rng.choice(AROMATIC_KINDS)
     hi = rng.randrange(len(sim.handles))
     fresh = getattr(sim, '_fresh_bias', None)
     if fresh is not None and fresh < len(sim.handles) and rng.random() < 0.7:
         hi = fresh      # (E) a freshly derived handle is edited first
-        if kind in ('obs', 'copy', 'sub', 'drop', 'new', 'flush') and rng.random() < 0.8:
+        if kind in ('obs', 'copy', 'sub', 'drop', 'new', 'flush') and rng.random() < 0.8 and not cfg.get('aromatic'):
             kind = rng.choice(['add_atom', 'add_bond', 'del_atom', 'del_bond', 'tx'])
     sim._fresh_bias = None
     model = sim.handles[hi].model
@@ -1079,6 +1114,11 @@ def gen_op(sim, rng, frng, cfg):
         op.update(gen_add_atom(rng))
     elif kind == 'set_xy':
         op.update(a=_rank(rng), x=rng.randrange(-5, 6), y=rng.randrange(-5, 6), how=rng.randrange(3))
+    elif kind == 'set_meta':
+        if rng.random() < 0.3:
+            op['name'] = 'n%d' % rng.randrange(100)
+        else:
+            op.update(k='k%d' % rng.randrange(3), v='v%d' % rng.randrange(100))
     elif kind == 'add_bond':
         op.update(gen_add_bond(rng, model))
     elif kind == 'del_atom':
